@@ -184,3 +184,33 @@ pub fn read_lines(path: &str) -> Vec<Value> {
         })
         .collect()
 }
+
+/// Decoy calls.  A library routine may (wrongly) carry state from one call to the next - a memo keyed by part of its
+/// argument, a cache of its last answer.  Before about half of the observed calls the driver therefore runs the same
+/// routine on a RELATED input and throws the result away: the same operations with one branching number changed, or the
+/// same branching on a renumbered chamber system.  Seeded by the input itself, so an event is reproducible on its own.
+pub fn with_decoy<T: rust_dsymbols::dsyms::DSym>(s: &T, mut f: impl FnMut(&PartialDSym)) {
+    use rust_dsymbols::dsets::DSet;
+    use std::hash::{Hash, Hasher};
+    let mut h = std::collections::hash_map::DefaultHasher::new();
+    dsym_json(s).to_string().hash(&mut h);
+    let mut r = StdRng::seed_from_u64(h.finish() ^ seed());
+    let n = s.size();
+    if n == 0 || !s.is_complete() || r.gen_bool(0.5) || std::env::var("DSV_NODECOY").is_ok() { return; }
+    let _ = catch(|| {
+        let j = dsym_json(s);
+        let mut d = if r.gen_bool(0.5) {
+            // same operations, the branching of one orbit changed (1 <-> 2, v -> v + 1)
+            let mut j = j.clone();
+            let i = r.gen_range(0..s.dim());
+            let c = r.gen_range(1..=n);
+            let old = s.v(i, i + 1, c).unwrap_or(1);
+            let new = if old == 1 { 2 } else if r.gen_bool(0.5) { 1 } else { old + 1 };
+            for e in s.orbit([i, i + 1], c) { j["v"][i][e - 1] = serde_json::json!(new); }
+            dsym_from_json(&j)
+        } else {
+            renumber(s, &rand_perm(n, &mut r))
+        };
+        f(&mut d);
+    });
+}
